@@ -394,6 +394,7 @@ func (s *Shard) SearchPoints(searchRequest models.SearchRequest) ([]models.Searc
 				continue
 			}
 			// E.g. ["name", "age"]
+		selectLoop:
 			for _, p := range searchRequest.Select {
 				// E.g. p = "name" or "*" (star)
 				dec.Reset(bytes.NewReader(r.Point.Data))
@@ -405,7 +406,9 @@ func (s *Shard) SearchPoints(searchRequest models.SearchRequest) ([]models.Searc
 				}
 				res, err := dec.Query(p)
 				if err != nil {
-					return nil, fmt.Errorf("could not select point data, %s: %w", p, err)
+					// The path does not fit the structure of this point, e.g.
+					// it indexes into a number, same as not found.
+					continue
 				}
 				if len(res) == 0 {
 					// Didn't find anything for this property
@@ -443,7 +446,9 @@ func (s *Shard) SearchPoints(searchRequest models.SearchRequest) ([]models.Searc
 					var ok bool
 					current, ok = current[s].(map[string]any)
 					if !ok {
-						return nil, fmt.Errorf("could not access nested property when selecting: %s", p)
+						// An earlier select already placed a non-map value
+						// here, e.g. ["a", "a.0"], nothing to nest under.
+						continue selectLoop
 					}
 				}
 			}
